@@ -12,7 +12,7 @@ RULE = ("random programs using constants as gate argument, qubit index, register
 ASSUMPTIONS = ["reference let evaluation in vf/meaning.py", "override values are numbers; overrides that the reference "
                "semantics finds out of range are not judged here (C14)"]
 TIERS = {"quick": {"shards": 8, "budget_s": 110}, "thorough": {"shards": 16, "budget_s": 300}}
-REQUIRE = {"gate-set-in-force": 3000, "via-parser-expand-let-map": 500, "calls-after-earlier-calls-on-same-object": 500, "override-used": 200, "let-sized-register": 100, "let-bound-map": 100, "shadowed-let-in-macro": 20,
+REQUIRE = {"circuits-with-a-branch-statement": 100, "gate-set-in-force": 3000, "via-parser-expand-let-map": 500, "calls-after-earlier-calls-on-same-object": 500, "override-used": 200, "let-sized-register": 100, "let-bound-map": 100, "shadowed-let-in-macro": 20,
            "via-parser": 100, "let-count": 100}
 
 
@@ -33,7 +33,68 @@ def find_lets(t, path=()):
     return out
 
 
+def constants_reachable(obj, limit=20000):
+    """Names of the Constant objects reachable from obj through attributes and containers (whatever the statement classes
+    are: no knowledge of the IR is needed)."""
+    from jaqalpaq.core import Constant
+
+    seen, out, stack = set(), [], [obj]
+    while stack and len(seen) < limit:
+        o = stack.pop()
+        if isinstance(o, (int, float, str, bytes, bool, type(None), type)) or id(o) in seen:
+            continue
+        seen.add(id(o))
+        if isinstance(o, Constant):
+            out.append(o.name)
+            continue
+        if isinstance(o, dict):
+            stack.extend(o.values())
+        elif isinstance(o, (list, tuple, set, frozenset)):
+            stack.extend(o)
+        elif isinstance(o, slice):
+            stack.extend([o.start, o.stop, o.step])
+        elif callable(o) and not hasattr(o, "__dict__"):
+            continue
+        elif hasattr(o, "__dict__") and type(o).__module__.startswith("jaqalpaq"):
+            stack.extend(vars(o).values())
+    return sorted(set(out))
+
+
+def judge_branch(case):
+    """The experimental branch statement (switched on for this circuit only): after let substitution no constant is
+    reachable from the body or the macros, the case bodies included.  No semantics needed."""
+    import jaqalpaq.core.branch as bm
+    from . import c11
+
+    prog = case_prog(case)
+    ov = dict(case.get("ov") or {})
+    old = bm.USE_EXPERIMENTAL_BRANCH
+    bm.USE_EXPERIMENTAL_BRANCH = True
+    try:
+        text = sx.to_text(prog) + c11.branch_text([(st_, [sx.unnorm(x) if isinstance(x, list) else x for x in body]) for st_, body in case["branch"]])
+        o = lib.outcome(lib.parse, text)
+        if o[0] != "ok":
+            return "skipped:input-rejected:" + o[1], []
+        try:
+            M.validate(M.core_from_sx(prog), ov)
+        except (M.MeaningError, M.OracleError):
+            return "skipped:no-reference-meaning:branch", []
+        r = lib.outcome(lib.fill_in_let, o[1], ov or None)
+        if r[0] == "jaqal":
+            return "skipped:branch-program-rejected", []
+        if r[0] != "ok":
+            return "ok", [("crash:" + r[1] + ":branch-statement", {"error": r[2], "ov": ov})]
+        left = constants_reachable([r[1].body, list(r[1].macros.values()), list(r[1].registers.values())])
+        if left:
+            return "ok", [("constant-left:branch-statement", {"constants": left, "ov": ov, "text": text})]
+        return "ok", []
+    finally:
+        bm.USE_EXPERIMENTAL_BRANCH = old
+
+
 def judge(case):
+    if case.get("branch"):
+        return judge_branch(case)
     prog = case_prog(case)
     ov = dict(case.get("ov") or {})
     via_parser = bool(case.get("via_parser"))
@@ -291,6 +352,17 @@ def shard(ctx):
                 rec.count("shared-override-dict-calls")
             process(ctx, case, seen)
             case.pop("_shared_dict", None)
+            if attempt == 0 and i % 10 == 0:
+                # the experimental branch statement after the body, its cases holding copies of body statements that use lets
+                letnames_ = {x[1] for x in prog[1:] if x[0] == "let"}
+                simple = [x for x in prog[1:] if x[0] in ("gate", "loop") and x[1] not in ("prepare_all", "measure_all")
+                          and any(isinstance(a, str) and a in letnames_ for y in sx.walk(x) for a in y[1:])]
+                if simple:
+                    bc = {"prog": prog, "ov": ov, "branch": [(format(k_, "01b"), [rng.choice(simple)]) for k_ in range(2)]}
+                    stb, fb = judge(bc)
+                    rec.count("circuits-with-a-branch-statement" if stb == "ok" else "branch:" + stb.split(":")[0] + ":" + stb.split(":")[1])
+                    for clause, detail in fb:
+                        rec.violation(sig("C05", clause), detail, bc)
             if i <= 2 and attempt == 0:
                 rec.sample({"ov": ov, "via_parser": case["via_parser"], "text": sx.to_text(prog)})
     monitors.report_contracts(rec)
